@@ -1049,10 +1049,16 @@ def inline_new_helpers(project, rec):
         if isinstance(f, ast.Attribute) and isinstance(f.value, ast.Name) and f.value.id in ("self", "cls") and caller.cls is not None:
             m = project.lookup_method(caller.cls, f.attr)
             if m is not None and m.qualname in shapes:
-                if any(f.attr in sc.methods for sc in project.subclasses(caller.cls)):
-                    # dynamic dispatch: for instances of that subclass the call runs the override, not this body -
-                    # inlining would hide it from every rule (soundness of the normaliser)
-                    return None, False
+                for sc in project.subclasses(caller.cls):
+                    if f.attr not in sc.methods:
+                        continue
+                    # dynamic dispatch: an instance of `sc` that runs THIS caller (inherited, or reached through
+                    # super()) calls sc's override, not the body about to be inlined - inlining would hide the
+                    # override from every rule (soundness of the normaliser).  A subclass that has its own version
+                    # of the caller (e.g. the materialised copy of a template method) is read on its own.
+                    own = sc.methods.get(caller.name)
+                    if own is None or any(isinstance(x, ast.Call) and isinstance(x.func, ast.Attribute) and x.func.attr == caller.name and isinstance(x.func.value, ast.Call) and getattr(x.func.value.func, "id", None) == "super" for x in ast.walk(own.node)):
+                        return None, False
                 sh = shapes[m.qualname]
                 decos = {ast.unparse(d) for d in m.node.decorator_list}
                 if "classmethod" in decos:
